@@ -228,6 +228,25 @@ func (g *globalCounterManager) doAcquire() {
 			result = requestReasonSuccess
 		}
 
+		// the tokens asked for were booked as being acquired when the request was built; an
+		// answer that has no result for a flow control must give them back, or the flow
+		// control stops asking once the leaked bookings reach its reserve
+		answered := map[string]bool{}
+		for _, r := range acquireResult.Status.Results {
+			answered[r.FlowControl] = true
+		}
+		for name, req := range limitRequestsMap {
+			if answered[name] {
+				continue
+			}
+			g.lock.RLock()
+			counter := g.counterMap[name]
+			g.lock.RUnlock()
+			if counter != nil {
+				counter.flowControl.AddAcquiring(-req.Tokens)
+			}
+		}
+
 		for _, r := range acquireResult.Status.Results {
 			rs := r
 			// counters are added and stopped concurrently (schema sync, cluster removal)
